@@ -491,6 +491,28 @@ def main(mod):
         n_ok += sum(1 for o in extra_obl if o['status'] == 'ok')
         broken_obl += [o for o in extra_obl if o['status'] != 'ok']
 
+    coqchk_summary = None
+    if tier == 'thorough' and not any(o['status'] == 'build-failed' for o in obl):
+        # independent re-check of the compiled Props file and everything it
+        # depends on; -o lists the axioms of the whole context
+        modname = 'HD.' + mod.PROPS_FILE[:-2]
+        rc_chk, out_chk = sh(f'timeout 1500 coqchk -silent -o -Q theories HD {modname}', cwd=COQ, timeout=1600)
+        m_chk = re.search(r'CONTEXT SUMMARY.*', out_chk, flags=re.S)
+        coqchk_summary = (m_chk.group(0) if m_chk else out_chk[-1500:]).strip()
+        ax = re.search(r'\* Axioms:\s*(.*?)\n\s*\n', coqchk_summary + '\n\n', flags=re.S)
+        ax_names = []
+        if ax and '<none>' not in ax.group(1):
+            ax_names = [ln.strip() for ln in ax.group(1).splitlines() if ln.strip()]
+        bad_ax = [a for a in ax_names if a.split()[0] not in ALLOWED_AXIOMS and a.split()[0].split('.')[-1] not in ALLOWED_AXIOMS]
+        n_obl += 1
+        if rc_chk == 0 and not bad_ax and 'type-in-type: <none>' in coqchk_summary:
+            n_ok += 1
+            extra_obl = list(extra_obl) + [{'name': 'coqchk -o ' + modname, 'status': 'ok', 'assumptions': ax_names or ['<none>']}]
+        else:
+            o_bad = {'name': 'coqchk -o ' + modname, 'status': 'coqchk-failed', 'assumptions': ax_names}
+            extra_obl = list(extra_obl) + [o_bad]
+            broken_obl.append(o_bad)
+
     # ---- cases ---------------------------------------------------------------
     rng = random.Random(seed * 1000003 + 17)
     cases = corpus_cases(prop) + mod.gen_cases(rng, tier)
@@ -630,7 +652,8 @@ def main(mod):
             'obligations': n_obl, 'discharged': n_ok,
             'checker_cmd': f'cd /verif/coq && make theories/{mod.PROPS_FILE}o  (coqc 8.16.1, full .vo build; Print Assumptions parsed)',
             'trusted_base': tb,
-            'theorems': [{'name': o['name'], 'status': o['status']} for o in obl + extra_obl],
+            'theorems': [{'name': o['name'], 'status': o['status']} for o in obl + list(extra_obl)],
+            'coqchk': coqchk_summary,
             'evaluations': len(cases),
             'distinct_nontrivial': len(nontriv),
             'rule': getattr(mod, 'RULE', 'see harness module docstring'),
